@@ -89,7 +89,9 @@ CLAIMED["C13"] = dict(
          "the independent pulse detector as (sync, short)=0, (sync, long)=1, 8-sample marker, pilots. End to end, for EVERY image "
          "(wav_roundtrip): the file encode_as_wav produces parses as 8-bit mono PCM and its data chunk demodulates - by the model of the "
          "BK-0010 monitor's reading at normal speed (demodNormal_encode) and by the one-pulse-per-bit reading in turbo (demodTurbo_encode) - "
-         "to exactly the load address, length, padded name, image bytes and end-around-carry checksum. Proved through a general lemma that "
+         "to exactly the load address, length, padded name, image bytes and end-around-carry checksum. The name itself (Model.Container.tapeName): "
+         "an explicit name is written as given, an inferred one is the file name of the output path without a final '.wav', nothing else is "
+         "removed (explicit_name_kept, inferred_keeps_other, inferred_strips_wav, baseName_no_slash, baseName_suffix). Proved through a general lemma that "
          "the run-length detector reads any well-formed run list as one pulse per high run (pulses_runs), the run structure of the emitted "
          "train (turbo_runs, normal_runs) and the logical layer of both formats (demodNormal_ideal_partial, demodTurbo_ideal_partial: "
          "_partial because they speak about ideal pulse lists; the end-to-end theorems close the gap). "
@@ -125,12 +127,17 @@ CLAIMED["C05"] = dict(
          "for left-associative operators it is in precedence normal form - left child binds at least as tightly, right child strictly "
          "more (shunt_normal) - and that normal form is unique (normal_unique), so the loop returns the one C-like reading of the chain "
          "(shunt_is_the_reading); random unbracketed chains over all 12 infix operators are parsed by the real parser and compared tree "
-         "for tree with Shunt.shunt. The model's own transliterated parser and "
+         "for tree with Shunt.shunt. With the prefix operators that may stand in front of the first operand (pushed on the same stack, "
+         "Model.ShuntP): when every prefix operator binds tighter than every infix operator of the chain - which the regenerated table "
+         "satisfies for + - ~ ^C (table_meets_prefix_hypothesis) - the tree of '- ~ a * b + c ...' is the tree of 'a * b + c ...' with a "
+         "replaced by -(~a), for chains of any length (prefix_binds_tightest, by running the two loops in step: popWhile_commutes, "
+         "shuntAux_commutes); chains with 1-4 leading prefix operators through the real parser against ShuntP.shuntP. Expressions inside "
+         "'.repeat' blocks are judged pass by pass. The model's own transliterated parser and "
          "evaluator are tied to the code by correspondence on random trees of depth <= 6 in every bracket style and literal spelling; the "
          "independent Lean Spec evaluator judges every value on the generator's tree.",
     design_ref="DESIGN.md §5 C05",
     technique="Lean 4 theorems (omega, core Int lemmas, Mathlib Int.testBit; induction over the operator stack for the precedence loop) + parser/evaluator model vs implementation correspondence + independent Spec evaluator",
-    note=NOTE + "The Shunt theorems cover chains of infix operators; that the full parser (brackets, prefix operators, literals - a partial "
+    note=NOTE + "The Shunt theorems cover chains of infix operators with leading prefix operators; operands are opaque (a literal or a bracketed sub-expression, parsed by a recursive call); that the full parser (brackets, literals - a partial "
          "definition in the model) feeds that loop as modelled is tied by the tree-for-tree comparison and the value oracle, not by a theorem. Grammar G admits "
          "prefix operators only where a (sub)expression starts (the implementation rejects 'a + ~b' with an error).",
 )
@@ -272,12 +279,17 @@ CLAIMED["C03"] = dict(
          "expression a value, so running out of it means a definition cycle (fuel_enough, out_of_fuel_means_cycle; the driver uses that bound); an additive chain of any length n evaluates to c + n in every order of its definitions (chain_value, "
          "chain_value_any_order); definitions added later never capture a reference that already has one (eval_append_of_ok); for the "
          "engine's symbolic arithmetic (Model.Poly = deferred.LinearPolynomial): whatever is settled at the time, two waits that arrive at "
-         "a number arrive at the same one, the arithmetic value (lazy_value_order_independent). Tie: "
+         "a number arrive at the same one, the arithmetic value (lazy_value_order_independent); for the engine's memoised thunks (Model.Thunk = "
+         "deferred.Deferred under try_compute): a remembered value and a remembered give-up (valid for one readiness epoch) never make a "
+         "wait answer differently from the engine without memory, the memories stay truthful after every wait and every settlement, after "
+         "ANY history of waits and settlements, and a number answered once is answered ever after (memo_sound, inv_settle, "
+         "wait_after_any_history, answer_is_final). Tie: "
          "definition tables in 5 placements against each other and against Defs.image; chains to depth 300/30 in 5 orders with the "
          "value known to the generator; one constant in 33 operand/directive positions, 4 placements, against the literal program; "
          "generated programs with definitions moved/permuted (also through the whole-program model); practice programs with "
          "literal definitions moved; includes between the uses; operation scripts on the real LinearPolynomial/Promise classes against "
-         "Model.Poly and integer arithmetic.",
+         "Model.Poly and integer arithmetic; random DAGs of real Deferred thunks over promises, waited speculatively and settled in random "
+         "order, against Model.Thunk (answers and both memories after every wait) and against the memory-less evaluation.",
     design_ref="DESIGN.md §5 C03",
     technique="Lean 4 theorems (induction on permutations, on fuel and on chain length) + metamorphic reordering oracle on the implementation + Defs/whole-program model correspondence",
     note=NOTE + "The theorems are about the final table (every definition entered); that the implementation's eager 'try now, else defer' "
@@ -294,10 +306,14 @@ CLAIMED["C16"] = dict(
          "equals assembling their concatenation (link_concat); '.end' discards exactly the rest of its own file - not the files linked "
          "after it, not the includer (end_discards, end_discards_own_file_only, end_in_include); an include is its statements in place "
          "(include_inline); '.once' lets the first compilation through and stops every later one (once_first, once_again); the chunk of "
-         "'insert_file' equals what '.byte b1,...,bn' emits, with no report (insert_eq_byte, over Directive.byteDir). Tie: pairs "
+         "'insert_file' equals what '.byte b1,...,bn' emits, with no report (insert_eq_byte, over Directive.byteDir). Which file a path names "
+         "(Model.Path = devices.resolve_relative_path, the key under which '.once' counts): './' and doubled slashes anywhere, and "
+         "'name/../' anywhere, do not change it; resolving is idempotent; a resolved path has no '.', no empty component and '..' only in "
+         "front of a relative path (norm_insert_dot, norm_insert_updown, norm_idem, norm_clean). Tie: pairs "
          "(program, written-out equivalent) on the real assembler - layout-language programs also against Layout.linkFiles, rich "
-         "repeat bodies, concatenation, insert_file vs .byte, .end vs truncation, .once vs single inclusion - and both members through "
-         "the whole-program model.",
+         "repeat bodies, concatenation, insert_file vs .byte, .end vs truncation, .once vs single inclusion (also under several spellings "
+         "of the path, and with the file linked as well as included) - and both members through the whole-program model; random base "
+         "files and relative paths through the real resolve_relative_path against Model.Path.",
     design_ref="DESIGN.md §5 C16",
     technique="Lean 4 theorems (induction on statement lists, on n and on the file list) + metamorphic equivalence oracle on the implementation + Layout/whole-program model correspondence",
     note=NOTE + "The premise of the theorems is that a statement's bytes depend on its address only. That a statement inside a repeat body really "
